@@ -6,6 +6,7 @@ CONSTANTS
   MaxCol = 2
   MaxPause = 1
   MaxCkpt = 0
+  MaxCfg = 0
   GreedySets = {{}, {1}}
   LazyModes = {FALSE}
   WrongGroup = TRUE
